@@ -2,6 +2,7 @@
 """Shared machinery of C13 / C14: generate a source dataset (or merge generated probes with
 the real Merger), run the real EphysAlfCreator.convert and collect what the oracles need."""
 import os
+import shutil
 
 import numpy as np
 
@@ -44,7 +45,7 @@ def read_out(out_dir):
 
 
 def run_convert(spec=None, probes=None, label='', factor=1, extra_files=(), same_dir=False, fill=0,
-                twice=False, out_variant=None, stale_out=False):
+                twice=False, out_variant=None, stale_out=False, symlinked=False):
     """Build the source (a generated dataset, or a merge of generated probes), convert it, collect.
 
     Returns a dict: truth / truths, src_before, src_after, out (arrays by file name), exception,
@@ -72,6 +73,13 @@ def run_convert(spec=None, probes=None, label='', factor=1, extra_files=(), same
         for name, content in extra_files:
             with open(str(src / name), 'wb') as f:
                 f.write(content)
+        if symlinked:
+            # the dataset directory links to the sorter's per-spike vectors instead of holding them
+            os.makedirs(str(d / 'sorter_output'))
+            for name in ('spike_clusters.npy', 'spike_templates.npy', 'amplitudes.npy'):
+                if os.path.exists(str(src / name)):
+                    shutil.move(str(src / name), str(d / 'sorter_output' / name))
+                    os.symlink(str(d / 'sorter_output' / name), str(src / name))
         res['src_files'] = {fn: np.load(str(src / fn)) for fn in os.listdir(str(src))
                             if fn.endswith('.npy') and not fn.startswith('pc_features')}
         if same_dir == 'dotdot':
@@ -117,12 +125,15 @@ def run_convert(spec=None, probes=None, label='', factor=1, extra_files=(), same
                     np.save(os.path.join(str(out_dir), fn), arr)
                 ret = c.convert(out_dir, force=True, label=label, ampfactor=factor)
             else:
+                # the default values (no label, unit factor 1) are passed explicitly in one half of
+                # the cases and left to the signature in the other half
+                explicit = int(fill if out_variant is None else out_variant) % 2 == 1
                 ckw = {}
-                if label:
+                if label or explicit:
                     ckw['label'] = label
-                if factor != 1:
+                if factor != 1 or explicit:
                     ckw['ampfactor'] = factor
-                ret = c.convert(out_dir, **ckw)       # defaults: no label, unit factor 1
+                ret = c.convert(out_dir, **ckw)
             if ret is not None:
                 res['returned'] = model_view(ret)
                 ret.close()
